@@ -11,6 +11,9 @@ every optional word (`IS`, `TIMES`, `USAGE`, `ON`, `WHEN`, `SIGN`) present or ab
 * `spelling_irrelevant` — two clause lists that differ only in optional words / synonyms parse alike.
 * `order_irrelevant` — any permutation of clauses of pairwise different kinds parses alike.
 * `name_kept` — no clause changes the data name.
+* `estruct_entry`, `estruct_agrees_with_parser` — the second reader of the entry text (`estruct.Representation.parse`, which
+  sizes and decodes the item) takes, from EVERY such entry, the same USAGE (DISPLAY when absent) and PICTURE as the schema
+  generator recorded: the clause grammar is implemented twice and the two agree on all canonical entries.
 * `D42_zeros`, `D27_indexed_by`, `D33_indexed_swallows`, `D43_sign_without_separate`, `D44_key_without_indexed` —
   machine-checked witnesses of the recorded findings on the same parser.
 -/
@@ -401,6 +404,133 @@ theorem name_kept (h : Head) (cs : List Clause) (hw : ∀ c ∈ cs, c.WF) :
     simp only [List.foldl_cons]
     exact ⟨ih'.1.trans this.1, ih'.2.trans this.2⟩
 
+/-! ## the second reader (`estruct`) sees the same USAGE and PICTURE -/
+
+/-- what a clause means to `estruct`: only USAGE and PICTURE matter -/
+def esem : Clause → ERep → ERep
+  | .pic _ _ p, r => { r with picture := some p.text }
+  | .usage _ _ u, r => { r with usage := u.text }
+  | _, r => r
+
+theorem estructGo_step (f : Nat) (t : Tok) (ts rest : List Tok) (g : ERep → ERep) (r : ERep)
+    (h : estructStep (t :: ts) = some (g, rest)) : estructGo (f + 1) (t :: ts) r = estructGo f rest (g r) := by
+  simp [estructGo, h]
+
+theorem estructGo_mono (f : Nat) (ts : List Tok) (r x : ERep) (h : estructGo f ts r = some x) :
+    estructGo (f + 1) ts r = some x := by
+  induction f generalizing ts r with
+  | zero => cases ts with
+    | nil => simpa [estructGo] using h
+    | cons t ts => simp [estructGo] at h
+  | succ f ih =>
+    cases ts with
+    | nil => simpa [estructGo] using h
+    | cons t ts =>
+      simp only [estructGo] at h ⊢
+      cases hs : estructStep (t :: ts) with
+      | none => simp [hs] at h
+      | some p => simp only [hs] at h ⊢; exact ih _ _ h
+
+theorem estructGo_mono_le (f f' : Nat) (hle : f ≤ f') (ts : List Tok) (r x : ERep) (h : estructGo f ts r = some x) :
+    estructGo f' ts r = some x := by
+  induction hle with
+  | refl => exact h
+  | step _ ih => exact estructGo_mono _ _ _ _ ih
+
+/-- one rendered clause costs at most as many steps as it has words and acts as `esem` -/
+theorem estruct_render (c : Clause) (hc : c.WF) :
+    ∃ k, k ≤ (render c).length ∧ ∀ (f : Nat) (rest : List Tok) (r : ERep),
+      estructGo (f + k) (render c ++ rest) r = estructGo f rest (esem c r) := by
+  cases c with
+  | redefines n => exact ⟨2, by simp [render], fun f rest r => by simp [render, estructGo, estructStep, esem]⟩
+  | blank w =>
+    cases w
+    · exact ⟨2, by simp [render, opt], fun f rest r => by simp [render, opt, estructGo, estructStep, esem]⟩
+    · exact ⟨3, by simp [render, opt], fun f rest r => by simp [render, opt, estructGo, estructStep, esem]⟩
+  | external => exact ⟨1, by simp [render], fun f rest r => by simp [render, estructGo, estructStep, esem]⟩
+  | global => exact ⟨1, by simp [render], fun f rest r => by simp [render, estructGo, estructStep, esem]⟩
+  | justified long right =>
+    exact ⟨(render (.justified long right)).length, Nat.le_refl _, fun f rest r => by
+      cases long <;> cases right <;> simp [render, opt, estructGo, estructStep, esem]⟩
+  | occurs n times =>
+    exact ⟨(render (.occurs n times)).length, Nat.le_refl _, fun f rest r => by
+      cases times <;> simp [render, opt, estructGo, estructStep, esem]⟩
+  | odo lo hi times on ctr =>
+    exact ⟨(render (.odo lo hi times on ctr)).length, Nat.le_refl _, fun f rest r => by
+      cases lo <;> cases times <;> cases on <;> simp [render, opt, estructGo, estructStep, esem]⟩
+  | pic long is p =>
+    have hp : p ≠ .kw .is := hc
+    refine ⟨1, by cases long <;> cases is <;> simp [render, opt], fun f rest r => ?_⟩
+    cases long <;> cases is <;> cases p <;> simp_all [render, opt, estructGo, estructStep, esem]
+    all_goals (rename_i k; cases k <;> simp_all [estructStep])
+  | signSep sign is leading character =>
+    exact ⟨(render (.signSep sign is leading character)).length, Nat.le_refl _, fun f rest r => by
+      cases sign <;> cases is <;> cases leading <;> cases character <;> simp [render, opt, estructGo, estructStep, esem]⟩
+  | sync long side =>
+    exact ⟨(render (.sync long side)).length, Nat.le_refl _, fun f rest r => by
+      cases long <;> rcases side with _ | _ | _ <;> simp [render, estructGo, estructStep, esem]⟩
+  | usage kw is u =>
+    refine ⟨1, by cases kw <;> cases is <;> simp [render, opt], fun f rest r => ?_⟩
+    cases kw <;> cases is <;> simp [render, opt, estructGo, estructStep, esem]
+  | value is v =>
+    have hv : v ≠ .kw .is := hc
+    refine ⟨1, by cases is <;> simp [render, opt], fun f rest r => ?_⟩
+    cases is <;> cases v <;> simp_all [render, opt, estructGo, estructStep, esem]
+    all_goals (rename_i k; cases k <;> simp_all [estructStep])
+
+theorem estruct_clauses (cs : List Clause) (hw : ∀ c ∈ cs, c.WF) :
+    ∃ K, K ≤ (cs.flatMap render).length ∧ ∀ (f : Nat) (r : ERep),
+      estructGo (f + K) (cs.flatMap render) r = some (cs.foldl (fun r c => esem c r) r) := by
+  induction cs with
+  | nil => exact ⟨0, by simp, fun f r => by cases f <;> simp [estructGo]⟩
+  | cons c cs ih =>
+    obtain ⟨k, hk, hstep⟩ := estruct_render c (hw c (by simp))
+    obtain ⟨K, hK, hrest⟩ := ih (fun c hc => hw c (by simp [hc]))
+    refine ⟨K + k, by rw [List.flatMap_cons, List.length_append]; omega, fun f r => ?_⟩
+    rw [List.flatMap_cons, ← Nat.add_assoc, hstep (f + K) _ r, hrest f (esem c r)]
+    simp
+
+/-- `estruct` reads, from the text of ANY entry, the last USAGE (DISPLAY when there is none) and the last PICTURE -/
+theorem estruct_entry (h : Head) (cs : List Clause) (hw : ∀ c ∈ cs, c.WF) :
+    estructParse (entry h cs) = some (cs.foldl (fun r c => esem c r) {}) := by
+  obtain ⟨K, hK, hgo⟩ := estruct_clauses cs hw
+  cases h with
+  | unnamed =>
+    simp only [estructParse, entry, Head.toks, List.nil_append]
+    exact estructGo_mono_le _ _ hK _ _ _ (by simpa using hgo 0 {})
+  | named n =>
+    simp only [estructParse, entry, Head.toks]
+    have h1 : estructGo (K + 1) ([Tok.name n] ++ cs.flatMap render) {} = some (cs.foldl (fun r c => esem c r) {}) := by
+      have := hgo 0 {}
+      simp only [Nat.zero_add] at this
+      simpa [estructGo, estructStep] using this
+    exact estructGo_mono_le _ _ (by rw [List.length_append, List.length_singleton]; omega) _ _ _ h1
+  | filler =>
+    simp only [estructParse, entry, Head.toks]
+    have h1 : estructGo (K + 1) ([Tok.kw .filler] ++ cs.flatMap render) {} = some (cs.foldl (fun r c => esem c r) {}) := by
+      have := hgo 0 {}
+      simp only [Nat.zero_add] at this
+      simpa [estructGo, estructStep] using this
+    exact estructGo_mono_le _ _ (by rw [List.length_append, List.length_singleton]; omega) _ _ _ h1
+
+/-- the two readers of an entry's text agree: the USAGE and PICTURE `estruct` sizes and decodes by are the ones the schema
+generator recorded (`DISPLAY` standing for no USAGE clause) -- for every head, every clause list, every order and spelling -/
+theorem estruct_agrees_with_parser (h : Head) (cs : List Clause) (hw : ∀ c ∈ cs, c.WF) :
+    ∃ d r, parse (entry h cs) = some d ∧ estructParse (entry h cs) = some r ∧
+      r.picture = d.picture ∧ r.usage = d.usage.getD "DISPLAY" := by
+  refine ⟨_, _, parse_entry h cs hw, estruct_entry h cs hw, ?_⟩
+  unfold meaning
+  have h0 : ({} : ERep).picture = h.dict.picture ∧ ({} : ERep).usage = h.dict.usage.getD "DISPLAY" := by
+    cases h <;> simp [Head.dict]
+  generalize h.dict = d at h0
+  generalize ({} : ERep) = r at h0
+  induction cs generalizing d r with
+  | nil => simpa using h0
+  | cons c cs ih =>
+    simp only [List.foldl_cons]
+    apply ih (fun c hc => hw c (by simp [hc]))
+    cases c <;> simp [sem, esem, h0.1, h0.2] <;> (repeat' split) <;> simp_all
+
 /-! ## non-vacuity and the recorded findings, on the same parser -/
 
 /-- `05 AMOUNT PICTURE IS S9(5)V99 USAGE IS COMP-3 OCCURS 3 TIMES VALUE ZERO.` in two orders and spellings -/
@@ -411,6 +541,10 @@ example :
 
 example : parse (entry (.named "AMOUNT") [.pic true true (.other "S9(5)V99"), .usage true true .comp3]) =
     some { name := some "AMOUNT", picture := some "S9(5)V99", usage := some "COMP-3" } := by decide
+
+/-- the second reader on `05 AMOUNT USAGE IS COMP-3 VALUE 'COMP' PICTURE S9(5)V99 OCCURS 3.` -/
+example : estructParse (entry (.named "AMOUNT") [.usage true true .comp3, .value false (.other "'COMP'"), .pic true false (.other "S9(5)V99"),
+    .occurs "3" false]) = some { usage := "COMP-3", picture := some "S9(5)V99" } := by decide
 
 /-- D42 (pinned by the project's tests): `BLANK WHEN ZEROS` leaves `S` behind, which becomes the data name -/
 theorem D42_zeros :
